@@ -42,10 +42,10 @@ fn class_name_body<const N: usize>(s: &SymStr<N>) {
 //# {"id":"c18_names_method_special","props":["C18"],"tier":"quick","cap":900,"bound":"the concrete strings <init> <clinit> <init <clinit init> <foo> plus every 1-byte extension of <init>; unwind 12","fns":["is_valid_method_name"]}
 //# {"id":"c18_names_obj_class_ascii3","props":["C18","C16"],"tier":"quick","cap":900,"bound":"every ASCII string of length 0..=3; unwind 6","fns":["duke::tree::names::is_valid_obj_class_name via ObjClassName::is_valid"]}
 //# {"id":"c18_names_class_ascii3","props":["C18","C16"],"tier":"quick","cap":900,"bound":"every ASCII string of length 0..=3; unwind 6","fns":["is_valid_class_name, is_valid_arr_class_name via ClassName/ArrClassName::is_valid"]}
-//# {"id":"c18_names_unqualified_ascii5","props":["C18","C16"],"tier":"thorough","cap":2400,"bound":"every ASCII string of length 0..=5; unwind 8","fns":["is_valid_unqualified_name"]}
-//# {"id":"c18_names_obj_class_ascii5","props":["C18","C16"],"tier":"thorough","cap":2400,"bound":"every ASCII string of length 0..=5; unwind 8","fns":["is_valid_obj_class_name"]}
+//# {"id":"c18_names_unqualified_ascii5","props":["C18","C16"],"tier":"quick","cap":900,"bound":"every ASCII string of length 0..=5; unwind 8","fns":["is_valid_unqualified_name"]}
+//# {"id":"c18_names_obj_class_ascii5","props":["C18","C16"],"tier":"quick","cap":900,"bound":"every ASCII string of length 0..=5; unwind 8","fns":["is_valid_obj_class_name"]}
 //# {"id":"c18_names_class_ascii5","props":["C18","C16"],"tier":"thorough","cap":2400,"bound":"every ASCII string of length 0..=5; unwind 8","fns":["is_valid_class_name","is_valid_arr_class_name"]}
-//# {"id":"c18_names_method_ascii5","props":["C18","C16"],"tier":"thorough","cap":2400,"bound":"every ASCII string of length 0..=5; unwind 8","fns":["is_valid_method_name"]}
+//# {"id":"c18_names_method_ascii5","props":["C18","C16"],"tier":"quick","cap":900,"bound":"every ASCII string of length 0..=5; unwind 8","fns":["is_valid_method_name"]}
 proofs! {
 	#[cfg_attr(kani, kani::unwind(6))]
 	fn c18_names_unqualified_ascii3() { let s = SymStr::<3>::any(0, 3); unqualified_body(&s); }
